@@ -78,6 +78,13 @@ struct Sys {
     fixed: Vec<bool>,
     /// start the free parameters at the solution (already satisfied)?
     start_at_solution: bool,
+    /// number of additional parameters that no equation mentions (alternately
+    /// free and fixed): the free ones must come back unchanged
+    unused: usize,
+}
+
+fn unused_var(k: usize) -> Var {
+    var_by_index(500 + k)
 }
 
 fn var(j: usize) -> Var {
@@ -111,6 +118,10 @@ fn build<F: Function + MathFunction>(s: &Sys) -> (Vec<F>, Vec<Vec<(usize, f64)>>
 
 fn params(s: &Sys) -> HashMap<Var, Parameter> {
     let xs = xstar(s.n);
+    let extra = (0..s.unused).map(|k| {
+        let v = 0.75 + k as f32;
+        (unused_var(k), if k % 2 == 0 { Parameter::Free(v) } else { Parameter::Fixed(v) })
+    });
     (0..s.n)
         .map(|j| {
             (
@@ -124,6 +135,7 @@ fn params(s: &Sys) -> HashMap<Var, Parameter> {
                 },
             )
         })
+        .chain(extra)
         .collect()
 }
 
@@ -173,7 +185,28 @@ fn run_backend<F: Function + MathFunction>(
             return None;
         }
     }
-    if sol.len() != s.fixed.iter().filter(|f| !**f).count() {
+    // parameters that no equation mentions: the free ones are part of the result,
+    // at their starting value; the fixed ones are not
+    for k in 0..s.unused {
+        let v = 0.75 + k as f32;
+        match (k % 2 == 0, sol.get(&unused_var(k))) {
+            (true, None) => {
+                cx.violation(format!("{name} a free parameter that no equation mentions is missing from the result"), desc(), format!("unused parameter {k}"));
+                return None;
+            }
+            // the property only pins values for an already satisfied start (then nothing may move)
+            (true, Some(x)) if s.start_at_solution && x.to_bits() != v.to_bits() => {
+                cx.violation(format!("{name} a free parameter that no equation mentions was changed"), desc(), format!("unused parameter {k}: start {v} returned {x}"));
+                return None;
+            }
+            (false, Some(_)) => {
+                cx.violation(format!("{name} result keys are not exactly the free parameters"), desc(), format!("unused fixed parameter {k} is present in the result"));
+                return None;
+            }
+            _ => (),
+        }
+    }
+    if sol.len() != s.fixed.iter().filter(|f| !**f).count() + s.unused.div_ceil(2) {
         cx.violation(format!("{name} result has extra keys"), desc(), format!("{} keys", sol.len()));
         return None;
     }
@@ -294,7 +327,7 @@ impl Check for C19 {
     }
     fn meta(&self, tier: Tier) -> Meta {
         Meta {
-            rule: "case = (matrix family, number of unknowns n, set of fixed parameters, start); families {diagonal, bidiagonal, tridiagonal, dense n*I+ones (condition number 2), pairs (under-determined)}, small integer coefficients, known solution x*; for n <= 6 EVERY subset of parameters is fixed (2^n subsets, including all and none), for larger n the fixed sets {none, all, all-but-one (each position for n <= 12), every k-th for k=2,3,4, first m for every m}; starts: away from the solution and exactly at it; fixed parameters sit at their solution values so the system stays consistent; VM and JIT; oracle: result keys = exactly the free parameters, exact start returned bit-for-bit, max residual <= 1e-3*scale computed with fixed parameters at their given values, VM vs JIT within 1e-3, no panic; non-trivial = some but not all parameters fixed".into(),
+            rule: "case = (matrix family, number of unknowns n, set of fixed parameters, start); families {diagonal, bidiagonal, tridiagonal, dense n*I+ones (condition number 2), pairs (under-determined)}, small integer coefficients, known solution x*; for n <= 6 EVERY subset of parameters is fixed (2^n subsets, including all and none), for larger n the fixed sets {none, all, all-but-one (each position for n <= 12), every k-th for k=2,3,4, first m for every m}; starts: away from the solution and exactly at it; fixed parameters sit at their solution values so the system stays consistent; each system also with 1-3 additional parameters that no equation mentions (alternately free and fixed): the free ones must be in the result (bit-identical to their start when the system starts satisfied); VM and JIT; oracle: result keys = exactly the free parameters, exact start returned bit-for-bit, max residual <= 1e-3*scale computed with fixed parameters at their given values, VM vs JIT within 1e-3, no panic; non-trivial = some but not all parameters fixed".into(),
             bounds: match tier {
                 Tier::Quick => "n in 1..=6 exhaustive over subsets; n in {7,8,9,10,13,16,25,40}".into(),
                 Tier::Thorough => "n in 1..=6 exhaustive over subsets; every n in 7..=40".into(),
@@ -316,13 +349,16 @@ impl Check for C19 {
             Unit::Small { n, fam } => {
                 for mask in 0..(1u32 << n) {
                     for start in [false, true] {
-                        let s = Sys {
-                            fam,
-                            n,
-                            fixed: (0..n).map(|j| (mask >> j) & 1 == 1).collect(),
-                            start_at_solution: start,
-                        };
-                        check_system(cx, &mut sub, &s);
+                        for unused in [0usize, 1, 3] {
+                            let s = Sys {
+                                fam,
+                                n,
+                                fixed: (0..n).map(|j| (mask >> j) & 1 == 1).collect(),
+                                start_at_solution: start,
+                                unused,
+                            };
+                            check_system(cx, &mut sub, &s);
+                        }
                     }
                 }
             }
@@ -341,8 +377,10 @@ impl Check for C19 {
                 }
                 for fixed in sets {
                     for start in [false, true] {
-                        let s = Sys { fam, n, fixed: fixed.clone(), start_at_solution: start };
-                        check_system(cx, &mut sub, &s);
+                        for unused in [0usize, 2] {
+                            let s = Sys { fam, n, fixed: fixed.clone(), start_at_solution: start, unused };
+                            check_system(cx, &mut sub, &s);
+                        }
                     }
                 }
             }
